@@ -137,6 +137,19 @@ func ExtractOffsetEncoder(fn *ssa.Function, isBuf func(ssa.Value) bool, guardTer
 				}
 				return
 			}
+			if h := putHelperSummary(x.Call.StaticCallee()); h != nil && isBuf(x.Call.Args[h.buf]) {
+				// buf-writing helper (extracted put-uint loop): one field at the offset argument
+				o := off(x.Call.Args[h.off])
+				if h.k != 0 {
+					var o2 GLin
+					for _, a := range o {
+						o2 = append(o2, GAlt{Guard: a.Guard, L: a.L.add(linConst(h.k), 1)})
+					}
+					o = o2
+				}
+				out = append(out, CField{Off: o.String(), offLin: o, Width: h.width, Order: h.order, Val: valueExpr(x.Call.Args[h.val], lx), Ins: ins, val: x.Call.Args[h.val]})
+				return
+			}
 			if b, ok := x.Call.Value.(*ssa.Builtin); ok && b.Name() == "copy" {
 				dst := x.Call.Args[0]
 				base, lo, _, ok := sliceOf(dst)
@@ -256,6 +269,10 @@ func ExtractOffsetDecoder(fn *ssa.Function, isBuf func(ssa.Value) bool, guardTer
 				} else if isBuf(x.Call.Args[1]) {
 					evs = append(evs, ev{ins: ins, val: x, width: fmt.Sprint(w), order: order, lo: nil})
 				}
+				return
+			}
+			if h := getHelperSummary(x.Call.StaticCallee()); h != nil && isBuf(x.Call.Args[h.buf]) {
+				evs = append(evs, ev{ins: ins, val: x, width: h.width, order: h.order, lo: x.Call.Args[h.off]})
 				return
 			}
 			if b, ok := x.Call.Value.(*ssa.Builtin); ok && b.Name() == "copy" {
@@ -633,4 +650,114 @@ func stripNumConv(v ssa.Value) ssa.Value {
 			return v
 		}
 	}
+}
+
+// helper summaries: small kevo functions that write / read one integer field of a byte buffer at an offset parameter.
+type codecHelper struct {
+	buf, off, val int // parameter indices (val: -1 for readers)
+	k             int64
+	width, order  string
+}
+
+var putHelperMemo = map[*ssa.Function]*codecHelper{}
+var getHelperMemo = map[*ssa.Function]*codecHelper{}
+var helperBusy = map[*ssa.Function]bool{}
+
+func paramIndex(f *ssa.Function, v ssa.Value) int {
+	for i, p := range f.Params {
+		if ssa.Value(p) == v {
+			return i
+		}
+	}
+	return -1
+}
+
+func byteSliceParams(f *ssa.Function) []int {
+	var out []int
+	for i, p := range f.Params {
+		if p.Type().String() == "[]byte" {
+			out = append(out, i)
+		}
+	}
+	return out
+}
+
+// offsetParam: the offset is "param" or "param + k".
+func offsetParam(f *ssa.Function, g GLin) (int, int64, bool) {
+	if len(g) != 1 || g[0].Guard != "" || len(g[0].L.T) != 1 {
+		return 0, 0, false
+	}
+	for t, coef := range g[0].L.T {
+		if coef != 1 || !strings.HasPrefix(t, "param:") {
+			return 0, 0, false
+		}
+		for i, p := range f.Params {
+			if p.Name() == strings.TrimPrefix(t, "param:") {
+				return i, g[0].L.K, true
+			}
+		}
+	}
+	return 0, 0, false
+}
+
+func putHelperSummary(f *ssa.Function) *codecHelper {
+	if f == nil || len(f.Blocks) == 0 || len(f.Blocks) > 8 || f.Pkg == nil || !strings.HasPrefix(f.Pkg.Pkg.Path(), modPath) || helperBusy[f] {
+		return nil
+	}
+	if h, ok := putHelperMemo[f]; ok {
+		return h
+	}
+	helperBusy[f] = true
+	defer delete(helperBusy, f)
+	var res *codecHelper
+	for _, bi := range byteSliceParams(f) {
+		bp := f.Params[bi]
+		fs := ExtractOffsetEncoder(f, func(v ssa.Value) bool { return v == ssa.Value(bp) }, noGuards)
+		if len(fs) != 1 || fs[0].val == nil || strings.HasPrefix(fs[0].Width, "len:") {
+			continue
+		}
+		oi, k, ok := offsetParam(f, fs[0].offLin)
+		vi := paramIndex(f, stripNumConv(fs[0].val))
+		if !ok || vi < 0 {
+			continue
+		}
+		res = &codecHelper{buf: bi, off: oi, val: vi, k: k, width: fs[0].Width, order: fs[0].Order}
+	}
+	putHelperMemo[f] = res
+	return res
+}
+
+func getHelperSummary(f *ssa.Function) *codecHelper {
+	if f == nil || len(f.Blocks) == 0 || len(f.Blocks) > 8 || f.Pkg == nil || !strings.HasPrefix(f.Pkg.Pkg.Path(), modPath) || helperBusy[f] {
+		return nil
+	}
+	if h, ok := getHelperMemo[f]; ok {
+		return h
+	}
+	helperBusy[f] = true
+	defer delete(helperBusy, f)
+	var res *codecHelper
+	for _, bi := range byteSliceParams(f) {
+		bp := f.Params[bi]
+		fs := ExtractOffsetDecoder(f, func(v ssa.Value) bool { return v == ssa.Value(bp) }, noGuards)
+		if len(fs) != 1 || strings.HasPrefix(fs[0].Width, "len") {
+			continue
+		}
+		oi, k, ok := offsetParam(f, fs[0].offLin)
+		if !ok || k != 0 {
+			continue
+		}
+		// every return yields the value read
+		good := true
+		for _, ret := range Returns(f) {
+			if len(ret.Results) != 1 || stripNumConv(ReturnValue(ret, 0)) != fs[0].val {
+				good = false
+			}
+		}
+		if good {
+			res = &codecHelper{buf: bi, off: oi, val: -1, width: fs[0].Width, order: fs[0].Order}
+		}
+	}
+	getHelperMemo[f] = res
+	return res
 }
